@@ -214,6 +214,15 @@ fn toml_output_refuses_every_second_document() {
 			bad.push(format!("two documents in one input {doc:?} were accepted: {:?}", String::from_utf8_lossy(&out)));
 		}
 	}
+	// MessagePack binary data has no TOML representation
+	for reader in [false, true] {
+		let bin = [0x81u8, 0xa1, 0x61, 0xc4, 0x02, 0x01, 0x02];
+		let mut out = Vec::new();
+		let r = if reader { xt::translate_reader(&bin[..], Some(Format::Msgpack), Format::Toml, &mut out) } else { xt::translate_slice(&bin, Some(Format::Msgpack), Format::Toml, &mut out) };
+		if r.is_ok() || !out.is_empty() {
+			bad.push(format!("MessagePack bin must be refused for TOML output (reader={reader}): {:?}", String::from_utf8_lossy(&out)));
+		}
+	}
 	for (doc, from) in [("[1,2]", Format::Json), ("7", Format::Json), ("{\"a\":{\"b\":[1,null]}}", Format::Json), ("a: ~\n", Format::Yaml)] {
 		let mut out = Vec::new();
 		let r = xt::translate_slice(doc.as_bytes(), Some(from), Format::Toml, &mut out);
@@ -269,6 +278,81 @@ fn detected_format_equals_named_format() {
 				bad.push(format!("{fmt} -> {to}: detected {ra:?} {:?} vs named {rb:?} {:?}", String::from_utf8_lossy(&a), String::from_utf8_lossy(&b)));
 			}
 		}
+	}
+	assert!(bad.is_empty(), "{} violations, first: {:?}", bad.len(), &bad[..bad.len().min(3)]);
+}
+
+/// Slice and reader input give the same verdict for JSON streams with zero documents and for JSON
+/// followed or preceded by characters that Unicode, but not JSON, treats as white space.
+#[test]
+fn json_edge_inputs_slice_equals_reader() {
+	let mut bad = vec![];
+	for input in ["", " ", "\n\n", "{\"a\":1}\n\u{c}", "\u{a0}[1]", "[1]\u{2028}", "\u{85}7", "{\"a\":1} \u{3000}"] {
+		for from in [Some(Format::Json), None] {
+			let (mut a, mut b) = (Vec::new(), Vec::new());
+			let ra = xt::translate_slice(input.as_bytes(), from, Format::Json, &mut a).is_ok();
+			let rb = xt::translate_reader(input.as_bytes(), from, Format::Json, &mut b).is_ok();
+			if ra != rb || (ra && a != b) {
+				bad.push(format!("{input:?} (format named: {}): slice ok={ra} {:?}, reader ok={rb} {:?}", from.is_some(), String::from_utf8_lossy(&a), String::from_utf8_lossy(&b)));
+			}
+		}
+	}
+	for input in ["", " \n "] {
+		let r = xt::translate_reader(input.as_bytes(), Some(Format::Json), Format::Json, io::sink());
+		if r.is_err() {
+			bad.push(format!("an empty JSON stream {input:?} from a reader must translate to nothing, got {:?}", r.map_err(|e| e.to_string())));
+		}
+	}
+	assert!(bad.is_empty(), "{} violations, first: {:?}", bad.len(), &bad[..bad.len().min(3)]);
+}
+
+/// A reader fault DURING DETECTION is reported with the reader's own message, whichever trial hits it.
+#[test]
+fn reader_fault_during_detection_is_reported() {
+	let mut bad = vec![];
+	let docs: [&[u8]; 4] = [b"a: 1\nb: [1, 2]\nc: {d: e}\n", b"[table] # comment\nkey = 1\nother = \"x\"\n", b"{\"a\": [1, 2, 3], \"b\": null}", &[0x82, 0xa1, 0x61, 0x01, 0xa1, 0x62, 0x92, 0x02, 0x03]];
+	for doc in docs {
+		for k in 0..doc.len() {
+			let r = xt::translate_reader(FailRead { data: doc, pos: 0, fail_at: k }, None, Format::Json, io::sink());
+			match r {
+				Ok(()) => bad.push(format!("{:?}: reader failing after {k} bytes reported success", String::from_utf8_lossy(doc))),
+				Err(e) => {
+					if !e.to_string().contains("cable unplugged") {
+						bad.push(format!("{:?}: reader failing after {k} bytes during detection: cause lost: {:?}", String::from_utf8_lossy(doc), e.to_string()));
+					}
+				}
+			}
+		}
+	}
+	assert!(bad.is_empty(), "{} violations, first: {:?}", bad.len(), &bad[..bad.len().min(3)]);
+}
+
+/// Truncated MessagePack of every kind is skipped by detection; TOML between 1 and 2 MiB that the
+/// YAML trial rejects early is detected from a reader just as from a slice.
+#[test]
+fn detection_boundaries() {
+	let mut bad = vec![];
+	for inp in [&[0x91u8, 0xa5, 0x68, 0x65][..], &[0x92, 0x01][..], &[0x81, 0xa1][..], &[0xdd, 0x00, 0x00][..], "\u{0710}: \u{65e5}\n".as_bytes()] {
+		for reader in [false, true] {
+			let r = if reader { xt::translate_reader(inp, None, Format::Json, io::sink()) } else { xt::translate_slice(inp, None, Format::Json, io::sink()) };
+			if let Err(e) = r {
+				if !e.to_string().contains("unable to detect input format") {
+					bad.push(format!("{inp:02x?} (reader={reader}): detection failed with {:?}", e.to_string()));
+				}
+			}
+		}
+	}
+	let mut toml = String::from("[table] # comment\n");
+	while toml.len() < 1_500_000 {
+		toml.push_str("# padding padding padding padding padding padding padding\nkey = 1\n[t");
+		toml.push_str(&toml.len().to_string());
+		toml.push_str("]\n");
+	}
+	let (mut a, mut b) = (Vec::new(), Vec::new());
+	let ra = xt::translate_slice(toml.as_bytes(), None, Format::Msgpack, &mut a).map_err(|e| e.to_string());
+	let rb = xt::translate_reader(toml.as_bytes(), None, Format::Msgpack, &mut b).map_err(|e| e.to_string());
+	if ra != rb || a != b {
+		bad.push(format!("1.5 MB TOML: slice {ra:?} ({} bytes) vs reader {rb:?} ({} bytes)", a.len(), b.len()));
 	}
 	assert!(bad.is_empty(), "{} violations, first: {:?}", bad.len(), &bad[..bad.len().min(3)]);
 }
